@@ -47,6 +47,50 @@ CLAIMED = {
             "Trusted: the component spaces themselves (decided by C09-C12) and the harness's flat slicing of compound states.",
             "5/C13", "oxv"),
 }
+
+CLAIMED.update({
+    "C06": ("proptest-generated timed runs (real wall clock, no budget) on feasible and by-construction infeasible worlds; in-process watchdog for non-termination",
+            "Timed solve / construct_roadmap calls with limits 0-50 ms over 4 planners x 6 kinds x feasible worlds and three infeasible families (goal sealed by a shell of thickness >= 1.1 L, goal region invalid, start sealed), plus degenerate resolutions: elapsed <= T + 1 s (confirmed by 3 repetitions before it counts), never Ok on an infeasible world, and every call returns within a 20 s watchdog.",
+            "Wall-clock oracle with a generous allowance: late-by-less-than-1 s is invisible; 'never blocks' is 'returned within the watchdog on every generated case'.",
+            "5/C06", "oxv"),
+    "C07": ("differential: two planner instances driven through the same generated call history in one process; metamorphic prefix relation across iteration budgets and a real timeout",
+            "Two instances built from the same case (seed, problem, history with repeated solve / re-setup / PRM construct / problem replacement, RNG-consuming goals) must agree after every step on results (bit for bit) and on tree / roadmap snapshots; and the node sequence after budget N, budget N+k and a real 0.2-3 ms timeout must be prefix-related.",
+            "Trusted: snapshot accessors and iteration budget (feature verif). Hash-order dependence is covered because both instances live in one process with distinct RandomStates.",
+            "5/C07", "oxv"),
+    "C08": ("model-based testing: exhaustive call sequences up to length 4/6 per planner + fault enumeration (sampler failing at its k-th call, out-of-range parameters, empty start list) + random histories, against a reference model of the API state; all calls under catch_unwind",
+            "Every call sequence up to length 4 (quick) / 6 (thorough) over {setup(P1), setup(P2), construct_roadmap, set_problem_definition(P2), solve} per planner, sampler faults at every k < 12, goal-bias / step / radius out of range, empty start lists, zero-sample roadmaps, plus 4000 random histories with faults: no call may unwind, every result must be in the reference model's allowed set, every Ok must answer the current problem; a second part runs the well-formed generators and requires zero panics.",
+            "Trusted: reference model (ApiModel) in harness/src/props/plan.rs and c08.rs. Three known findings (goal_bias outside [0,1] panics in random_bool) excluded by exact planner/op/message/file signature.",
+            "5/C08", "oxv"),
+    "C14": ("statistical PBT: KS / chi-square goodness of fit of 2e5-1e6 draws per generated bound setting against the exact marginal laws, alpha = 1e-9 with confirmation on a second seed",
+            "Per generated setting (48 quick / 360 thorough): Kolmogorov-Smirnov of every coordinate, angle, rotation angle (theta - sin theta law conditioned on the cone), axis z-component and azimuth against the exact CDF, sign symmetry of the quaternion, 8x8 chi-square for independence of consecutive marginals.",
+            "Statistical: cannot see biases below about 1%; asymptotic tail formulas; cones of radius < 0.3 not sampled.",
+            "5/C14", "oxv"),
+    "C15": ("bounded-exhaustive explicit-state exploration of the real planners under a scripted sampler (all sample sequences to depth 4/6 over a 6-7 state alphabet, de-duplicated by tree snapshot) + stepwise random runs + chunked/timed runs; tree invariant after every iteration",
+            "Every reachable tree (up to the stated depth over the stated alphabet and worlds; about 2e5 sequences in the quick tier) and every intermediate tree of several hundred random stepwise runs is checked: indices, single root, acyclic, root identity, node validity, every new or changed edge motion-checked (oracles A and B) and within the extension limit, RRT* cost >= branch length, returned path = parent walk. A hang of path extraction is reported as a violation by the watchdog.",
+            "Exhaustive only over the stated alphabet / depth / worlds. Trusted: snapshot accessors, scripted sampler wrapper.",
+            "5/C15", "oxv"),
+    "C16": ("same exploration; per-iteration transition oracle from a reference model of one RRT / RRT-Connect / RRT* iteration; goal-bias frequency by Hoeffding bound on long seeded runs",
+            "For every explored transition: the new state equals the sample (within the step) or interpolate(nearest, sample, step/dist) bit for bit for some nearest node (ties allowed), it is added iff the iteration's first motion check passed (read from the ordered validity log), nothing else changes; RRT-Connect grows the smaller tree first and then extends the other toward the new node. Goal bias 0 / 1 exactly, p in (0,1) within the Hoeffding bound at 1e-9.",
+            "Trusted: reference model in harness/src/props/trees.rs; the planner's own metric (decided by C09) is used to determine 'nearest'.",
+            "5/C16", "oxv"),
+    "C17": ("same exploration restricted to RRT* + stepwise random runs: bit-exact cost bookkeeping, arg-min parent modulo rejected motions, rewiring exactly when strictly cheaper; differential RRT vs RRT* on the same seed",
+            "Per accepted RRT* iteration: cost(new) = cost(parent) + edge bit-exactly; no candidate cheaper than the chosen parent unless a motion query on that segment was rejected; neighbours strictly cheaper through the new node (and not blocked) are re-parented with the exact cost, everything else bit-identical, recorded costs never increase. 2000 (quick) RRT-vs-RRT* pairs: same outcome, same end state, RRT* not longer.",
+            "Trusted: reference model in harness/src/props/trees.rs. Where a rejected query from an overlapping collinear segment lies on the rewiring segment either outcome is accepted (stated in DESIGN.md).",
+            "5/C17", "oxv"),
+    "C18": ("bounded-exhaustive scripted sample sequences (length <= 4/5 over the alphabet, all worlds, three radii) + random roadmaps: construction replayed against the ordered validity log, reference multi-source BFS for every query",
+            "Milestones = valid samples in order bit for bit; adjacency symmetric / no self-links / no duplicates; the construction is replayed against the ordered validity log so that a pair is linked iff it is within the radius and its motion check passed (exact in both directions), each link re-checked by oracles A and B; repeated construct and set_problem_definition leave the roadmap bit-identical; every query answer is compared with a reference BFS (Ok iff connected, path is a roadmap walk with the fewest milestones).",
+            "Trusted: roadmap snapshot accessor, sample budget hook, scripted / recording sampler.",
+            "5/C18", "oxv"),
+    "C19": ("Hypothesis-generated scenarios run through oxmpl_py and through the Rust core (persistent reference server), compared bit for bit; wrapper constructors over the C12 lattice",
+            "300 (quick) / 5000 (thorough) generated scenarios over the six from_* variants x {RRT, RRTConnect, RRTStar}: outcome class and every float of the path as 64-bit patterns against the Rust core run on the same PlanCase; PRM paths checked for soundness against the Python callbacks (dense re-check through the core's interpolation); about 2000 wrapper constructor / getter / distance comparisons over the special-value lattice (ValueError <=> core Err).",
+            "Callbacks restricted to comparisons and the wrapped space.distance so that both languages compute bit-identical functions; examples that time out on either side are discarded and counted (run is inconclusive above 25%).",
+            "5/C19", "py"),
+    "C20": ("Hypothesis-generated fault plans (raise / None / non-bool, by region or at the k-th call) on validity and goal callbacks; metamorphic comparison with callbacks returning False at the same points",
+            "Run A (failing callbacks) versus run B (callbacks returning False exactly where A's failed), same seed: identical outcome and bit-identical path for RRT / RRT-Connect / RRT*; for region faults no state of the returned path lies in the fault region (all four planners).",
+            "Python bindings only: the JavaScript half of the anchor cannot be built or run in this sandbox.",
+            "5/C20", "py"),
+})
+
 PENDING = {}
 ALL = ["C%02d" % i for i in range(1, 21)]
 
@@ -93,6 +137,8 @@ def main():
         "engines": [
             {"name": "oxv", "path": "/verif/harness", "serves_properties": [c["property_id"] for c in checks if c["engine"] == "oxv"],
              "kind_free_text": "Rust binary: proptest 1.11 TestRunner driven from a binary over choice sequences (16 workers), exhaustive lattices, bounded-exhaustive scripted exploration, shrinking to replay files, known-findings handling"},
+            {"name": "py", "path": "/verif/py", "serves_properties": [c["property_id"] for c in checks if c["engine"] == "py"],
+             "kind_free_text": "Hypothesis 6 (python3-vt) driving oxmpl_py built from /repo's working tree, with `oxv refserver` as the Rust-core reference"},
         ],
         "checks": checks,
         "not_applicable": na,
